@@ -135,8 +135,14 @@ TypeTexts(ty) == CASE ty.k = "rstr" -> RStrTexts
                    [] OTHER -> {}
 \* (a registered type sees its own spellings, the texts it must refuse and the non-text scalars: what base64 / Decimal /
 \* complex make of an arbitrary text is not tabulated)
+\* Decimal / complex / base64 read many texts and numbers that their tables do not list: a type that holds one of them
+\* sees its own spellings, the texts it must refuse and the non-text scalars only (and no range / bytes as a list of numbers)
+RECURSIVE Untabulated(_)
+Untabulated(ty) == CASE ty.k = "reg" -> DefName(ty) \in {"decimal", "complex", "bytes"}
+                     [] ty.k \in {"list", "set", "tupleE", "tuple", "dict", "union"} -> \E i \in 1..Len(ty.v) : Untabulated(ty.v[i])
+                     [] OTHER -> FALSE
 TopScalars(ty) == {StrV(s) : s \in TypeTexts(ty)} \cup
-                  (IF ty.k = "reg" THEN ScalarsNoText \cup {StrV("null"), StrV("[1]")}
+                  (IF ty.k = "reg" \/ Untabulated(ty) THEN ScalarsNoText
                    ELSE IF Tier = "quick" /\ ty \notin TopLeaves THEN ScalarsNoText \cup {StrV(s) : s \in CoreTexts} ELSE Scalars)
 Wrong   == {ListV(<< >>), ListV(<<IntV(1)>>), TupleV(<<IntV(1), StrV("a")>>), SetV({IntV(1)}), DictV(<< >>), D1(StrV("a"), IntV(1))}
 
@@ -160,6 +166,7 @@ KeyPool == {StrV("a"), StrV("1"), StrV("0x10"), IntV(1), BoolV(TRUE)}
 TupPool(t) == IF Tier = "quick" THEN ElemPool(t) \cap ({IntV(1), StrV("1"), StrV("a"), FloatV(3, 2), BoolV(TRUE), NoneV} \cup {y \in ElemPool(t) : y.k \in {"list", "dict", "tuple", "set"}})
               ELSE ElemPool(t)
 TuplePick == {IntV(1), StrV("1"), StrV("a")}       \* first members of the candidates that are given as TUPLES / with a wrong arity
+IterRegs == {RegV("range", "1,5,1"), RegV("range", "0,0,1"), RegV("bytes", "6162")}     \* iterables that are not containers: a list is made of them
 RECURSIVE Structs(_)
 Structs(t) ==
   CASE t.k \in LeafKinds \cup {"any", "literal", "enum", "path", "rstr", "rnum"} -> {}
@@ -168,12 +175,12 @@ Structs(t) ==
     [] t.k \in {"list", "set", "tupleE"} ->
          LET P == IF Len(t.v) = 0 THEN {IntV(1), StrV("a"), NoneV} ELSE ElemPool(t.v[1])
          IN {ListV(s) : s \in SeqsUpTo2(P)} \cup {TupleV(<<e>>) : e \in P} \cup {SetV({e}) : e \in {e \in P : Hashable(e)}}
-            \cup {TupleV(<<IntV(1), IntV(2)>>), SetV({IntV(1), IntV(2)}), SetV({})}
+            \cup {TupleV(<<IntV(1), IntV(2)>>), SetV({IntV(1), IntV(2)}), SetV({})} \cup (IF Untabulated(t) THEN {} ELSE IterRegs)
     [] t.k = "tuple" ->
          LET full == SeqProd([n \in 1..Len(t.v) |-> TupPool(t.v[n])])
              some == {s \in full : s[1] \in TuplePick}
          IN {ListV(s) : s \in full} \cup {TupleV(s) : s \in some}
-            \cup {ListV(SubSeq(s, 1, Len(s) - 1)) : s \in some} \cup {ListV(s \o <<IntV(1)>>) : s \in some} \cup {SetV({IntV(1)})}
+            \cup {ListV(SubSeq(s, 1, Len(s) - 1)) : s \in some} \cup {ListV(s \o <<IntV(1)>>) : s \in some} \cup {SetV({IntV(1)})} \cup IterRegs
     [] t.k = "dict" ->
          LET P == IF Len(t.v) = 0 THEN {IntV(1), StrV("a")} ELSE ElemPool(t.v[2])
          IN {DictV(<< >>)} \cup {D1(key, e) : key \in KeyPool, e \in P}
@@ -203,8 +210,10 @@ Jsonable(y) == CASE y.k = "bag" -> [k |-> "bag", v |-> [n \in 1..Len(AsSeq(y)) |
 FnPairs(f) == LET S == SetAsSeq(DOMAIN f) IN [i \in 1..Len(S) |-> <<S[i], f[S[i]]>>]
 \* the definitions of the restricted / registered types, for the harness (which builds the real types from them and runs every row)
 ASSUME Emit # "none" => PrintT(ToJson([typedefs |-> [rstr |-> RStrDefs, rnum |-> RNumDefs, pyint |-> PyIntTbl, pyfloat |-> PyFloatTbl,
-          reg |-> [n \in RegNames |-> [ser |-> FnPairs(RegDefs[n].ser), txt |-> FnPairs(RegDefs[n].txt), num |-> FnPairs(RegDefs[n].num), bad |-> RegDefs[n].bad]]]]))
-\* arguments named like a Namespace method: a sample of types, the value given as an object
+          reg |-> [n \in RegNames |-> [ser |-> FnPairs(RegDefs[n].ser), txt |-> FnPairs(RegDefs[n].txt), num |-> FnPairs(RegDefs[n].num), bad |-> RegDefs[n].bad]],
+          iter |-> [n \in DOMAIN IterTbl |-> FnPairs(IterTbl[n])]]]))
+\* a sample of types that the replay also declares under a name that is a Namespace method (--items): nothing may depend on
+\* the name of the argument (repaired by /repo 737ad47; before, such values were not normalised when they came as an object)
 ClashTypes == {IntT, FloatT, EnE, ListT(IntT), SetT(IntT), DictT(StrT, IntT), TupleT(<<IntT, StrT>>), UnionT(<<IntT, StrT>>), Sku, TdT}
 ASSUME Emit # "none" => PrintT(ToJson([vocabulary |-> LET S == SetAsSeq(DOMAIN YamlTbl) IN [n \in 1..Len(S) |-> <<S[n], YamlTbl[S[n]]>>]]))
 
@@ -235,13 +244,12 @@ InvCase ==
           /\ (C02Laws /\ d = NoneV /\ IsRep(t)) => Named("RefPermInvariant", \A p \in AllPerms(t) \ {t} : Accepts(p, x) = acc /\ TopResults(p, x) = res)
           /\ C02Laws => Named("AlgRefinesRef", Devs(a) = {} => (a.ok = acc /\ (a.ok => (a.v \in res /\ ConformsTop(t, a.v)))))
           /\ (C02Laws /\ Tier # "quick") => Named("AlgPermInvariant", AlgPermInvariantA(t, x, d, a))    \* (quick: every permutation is a state of its own)
-          /\ C02Laws => Named("DevsAsDescribed", ("excLeak" \in a.dev => ~a.ok) /\ ((Devs(a) # {} /\ Devs(a) \subseteq {"litEq", "dictKey", "origNested"} /\ ~a.ok) => ~acc))
-          /\ (C02Laws /\ d = NoneV /\ t \in ClashTypes) =>
-                Named("ClashRefines", LET c == AlgParseClash(t, x, d) IN c.dev = {} => (c.ok = acc /\ (c.ok => c.v \in res)))
+          /\ C02Laws => Named("DevsAsDescribed", ((Devs(a) # {} /\ Devs(a) \subseteq {"litEq", "dictKey", "origNested"} /\ ~a.ok) => ~acc))
           /\ C10Laws => Named("Idempotent", IdempotentA(t, d, a))
           /\ C10Laws => Named("DumpStable", DumpStableA(t, d, a))
+          /\ C10Laws => Named("DumpPure", DumpPureA(t, a))
           /\ (Emit = "all" \/ (Emit = "accepted" /\ a.ok)) => PrintT(ToJson(
                 IF d = NoneV /\ t \in ClashTypes
-                THEN LET c == AlgParseClash(t, x, d) IN [t |-> t, d |-> d, x |-> x, acc |-> acc, res |-> res, aok |-> a.ok, av |-> a.v, dev |-> a.dev, cok |-> c.ok, cv |-> c.v, cdev |-> c.dev]
+                THEN [t |-> t, d |-> d, x |-> x, acc |-> acc, res |-> res, aok |-> a.ok, av |-> a.v, dev |-> a.dev, clash |-> TRUE]
                 ELSE [t |-> t, d |-> d, x |-> x, acc |-> acc, res |-> res, aok |-> a.ok, av |-> a.v, dev |-> a.dev]))
 =============================================================================
